@@ -5,6 +5,7 @@ import (
 	"io"
 	"os"
 	"path/filepath"
+	"strings"
 	"sync"
 	"syscall"
 	"time"
@@ -16,6 +17,11 @@ type LocalFS struct {
 	Root string
 
 	opts LocalFSOptions
+
+	// Directories whose mtime has yet to be applied (innermost last). Creating an
+	// entry in a directory updates its mtime, so it can only be set once the
+	// directory is complete.
+	pendingDirs []NodeDirectory
 
 	dev     uint64
 	once    sync.Once
@@ -42,7 +48,31 @@ type LocalFSOptions struct {
 var _ FilesystemWriter = &LocalFS{}
 var _ FilesystemReader = &LocalFS{}
 
+// settle applies the mtime of all directories that are complete, that is those
+// that can't contain name. Entries arrive depth-first. An empty name settles all.
+func (fs *LocalFS) settle(name string) error {
+	for len(fs.pendingDirs) > 0 {
+		d := fs.pendingDirs[len(fs.pendingDirs)-1]
+		if name != "" && (d.Name == "." || strings.HasPrefix(name, d.Name+"/")) {
+			break
+		}
+		fs.pendingDirs = fs.pendingDirs[:len(fs.pendingDirs)-1]
+		if err := os.Chtimes(filepath.Join(fs.Root, d.Name), d.MTime, d.MTime); err != nil {
+			return err
+		}
+	}
+	return nil
+}
+
+// finish is called by UnTar once all entries have been written.
+func (fs *LocalFS) finish() error {
+	return fs.settle("")
+}
+
 func (fs *LocalFS) CreateDir(n NodeDirectory) error {
+	if err := fs.settle(n.Name); err != nil {
+		return err
+	}
 	dst := filepath.Join(fs.Root, n.Name)
 
 	// Let's see if there is a dir with the same name already
@@ -64,10 +94,14 @@ func (fs *LocalFS) CreateDir(n NodeDirectory) error {
 	if n.MTime == time.Unix(0, 0) {
 		return nil
 	}
+	fs.pendingDirs = append(fs.pendingDirs, n)
 	return os.Chtimes(dst, n.MTime, n.MTime)
 }
 
 func (fs *LocalFS) CreateFile(n NodeFile) error {
+	if err := fs.settle(n.Name); err != nil {
+		return err
+	}
 	dst := filepath.Join(fs.Root, n.Name)
 
 	if err := os.RemoveAll(dst); err != nil && !os.IsNotExist(err) {
@@ -93,6 +127,9 @@ func (fs *LocalFS) CreateFile(n NodeFile) error {
 }
 
 func (fs *LocalFS) CreateSymlink(n NodeSymlink) error {
+	if err := fs.settle(n.Name); err != nil {
+		return err
+	}
 	dst := filepath.Join(fs.Root, n.Name)
 
 	if err := syscall.Unlink(dst); err != nil && !os.IsNotExist(err) {
